@@ -1,6 +1,7 @@
 /-
   Breadth-first `find_shortest_path` (model: `PintModel/Model/Context.lean`):
-  validity, completeness (fuel-explicit) and minimality of the returned path.
+  validity, completeness (the fuel `bfsFuel` of the model is proved sufficient) and minimality
+  of the returned path.
   Core Lean only.
 -/
 import PintModel.Model.Context
@@ -576,11 +577,228 @@ theorem bfs_none_unreach {es : List (UC × UC)} (hr : EdgeRefl es) {s t : UC} {f
     have := inv_no_target (hall n) hxr hxt
     omega
 
+/-! ### the fuel `bfsFuel es` bounds the number of iterations
+
+  A node is marked visited when popped, so the queue may hold many entries per node.  Potential:
+  with `B = es.length + 1` and `unvis es vis` the number of edges whose target is not yet `==` to
+  a visited node, a queue entry `(node, _)` weighs `B ^ unvis es (visit vis node)`.  Weights never
+  grow when `vis` grows.  An iteration that does not return replaces the popped entry, of weight
+  `B ^ u` with `u = unvis es (visit vis node)`, by at most `es.length = B - 1` entries `(a, _)`
+  where `a` is an edge target not yet visited, hence each of weight at most `B ^ (u - 1)`:
+  the potential strictly decreases. -/
+
+/-- the edge target of `e` is not `==` to a visited node -/
+def unv (vis : List UC) (e : UC × UC) : Bool := !(vis.any (·.beq e.2))
+
+theorem unv_iff {vis : List UC} {e : UC × UC} : unv vis e = true ↔ ¬ InV vis e.2 := by
+  unfold unv
+  rw [← any_iff_InV]
+  cases vis.any (·.beq e.2) <;> simp
+
+theorem unv_false_iff {vis : List UC} {e : UC × UC} : unv vis e = false ↔ InV vis e.2 := by
+  unfold unv
+  rw [← any_iff_InV]
+  cases vis.any (·.beq e.2) <;> simp
+
+/-- number of edges whose target is not visited -/
+def unvis (es : List (UC × UC)) (vis : List UC) : Nat := es.countP (unv vis)
+
+theorem unvis_le (es : List (UC × UC)) (vis : List UC) : unvis es vis ≤ es.length :=
+  List.countP_le_length
+
+theorem InV_visit_iff {vis : List UC} {n x : UC} :
+    InV (visit vis n) x ↔ InV vis x ∨ n.beq x = true := by
+  constructor
+  · rintro ⟨v, hv, hvx⟩
+    rcases mem_visit hv with h | rfl
+    · exact Or.inl ⟨v, h, hvx⟩
+    · exact Or.inr hvx
+  · rintro (h | h)
+    · exact InV_visit_mono h
+    · exact InV_visit_self h
+
+theorem unvis_mono {es : List (UC × UC)} {v1 v2 : List UC} (h : ∀ x, InV v1 x → InV v2 x) :
+    unvis es v2 ≤ unvis es v1 := by
+  unfold unvis
+  apply List.countP_mono_left
+  intro e _ he
+  rw [unv_iff] at he ⊢
+  exact fun h1 => he (h _ h1)
+
+theorem countP_lt_of {α : Type} {p q : α → Bool} {l : List α}
+    (h : ∀ x ∈ l, p x = true → q x = true) {a : α} (ha : a ∈ l) (hq : q a = true)
+    (hp : p a = false) : l.countP p < l.countP q := by
+  induction l with
+  | nil => cases ha
+  | cons b l ih =>
+    have hmono : l.countP p ≤ l.countP q :=
+      List.countP_mono_left (fun x hx => h x (List.mem_cons_of_mem _ hx))
+    rw [List.countP_cons, List.countP_cons]
+    rcases List.mem_cons.mp ha with rfl | ha
+    · rw [hp, hq]; simp; omega
+    · have ih := ih (fun x hx => h x (List.mem_cons_of_mem _ hx)) ha
+      have hb := h b (by simp)
+      cases hpb : p b with
+      | false => simp; omega
+      | true => rw [hb hpb]; simp; omega
+
+theorem unvis_lt {es : List (UC × UC)} {v1 v2 : List UC} (h : ∀ x, InV v1 x → InV v2 x)
+    {e : UC × UC} (he : e ∈ es) (h1 : ¬ InV v1 e.2) (h2 : InV v2 e.2) :
+    unvis es v2 < unvis es v1 := by
+  unfold unvis
+  apply countP_lt_of (a := e) _ he (unv_iff.mpr h1) (unv_false_iff.mpr h2)
+  intro e' _ he'
+  rw [unv_iff] at he' ⊢
+  exact fun h1 => he' (h _ h1)
+
+/-- weight of a queue entry for `node` -/
+def wt (es : List (UC × UC)) (vis : List UC) (node : UC) : Nat :=
+  (es.length + 1) ^ unvis es (visit vis node)
+
+/-- the potential of the queue -/
+def pot (es : List (UC × UC)) (vis : List UC) : List (UC × List UC) → Nat
+  | [] => 0
+  | e :: q => wt es vis e.1 + pot es vis q
+
+theorem pot_append (es : List (UC × UC)) (vis : List UC) (q1 q2 : List (UC × List UC)) :
+    pot es vis (q1 ++ q2) = pot es vis q1 + pot es vis q2 := by
+  induction q1 with
+  | nil => simp [pot]
+  | cons e q1 ih => simp only [List.cons_append, pot, ih]; omega
+
+theorem wt_mono {es : List (UC × UC)} {v1 v2 : List UC} (h : ∀ x, InV v1 x → InV v2 x)
+    (n : UC) : wt es v2 n ≤ wt es v1 n := by
+  unfold wt
+  apply Nat.pow_le_pow_right (Nat.succ_pos _)
+  apply unvis_mono
+  intro x hx
+  rw [InV_visit_iff] at hx ⊢
+  rcases hx with hx | hx
+  · exact Or.inl (h _ hx)
+  · exact Or.inr hx
+
+theorem pot_mono {es : List (UC × UC)} {v1 v2 : List UC} (h : ∀ x, InV v1 x → InV v2 x)
+    (q : List (UC × List UC)) : pot es v2 q ≤ pot es v1 q := by
+  induction q with
+  | nil => exact Nat.le_refl _
+  | cons e q ih =>
+    simp only [pot]
+    exact Nat.add_le_add (wt_mono h _) ih
+
+theorem pot_map_le {es : List (UC × UC)} {vis path : List UC} {u : Nat} (l : List UC)
+    (h : ∀ a ∈ l, unvis es (visit vis a) ≤ u) :
+    pot es vis (l.map (fun a => (a, path ++ [a]))) ≤ l.length * (es.length + 1) ^ u := by
+  induction l with
+  | nil => simp [pot]
+  | cons a l ih =>
+    have ih := ih (fun b hb => h b (List.mem_cons_of_mem _ hb))
+    have ha : wt es vis a ≤ (es.length + 1) ^ u :=
+      Nat.pow_le_pow_right (Nat.succ_pos _) (h a (by simp))
+    simp only [List.map_cons, pot, List.length_cons, Nat.succ_mul]
+    omega
+
+theorem length_foldl_dedup (l acc : List UC) :
+    (l.foldl dedupStep acc).length ≤ acc.length + l.length := by
+  induction l generalizing acc with
+  | nil => simp
+  | cons x l ih =>
+    rw [List.foldl_cons]
+    have := ih (dedupStep acc x)
+    have h2 : (dedupStep acc x).length ≤ acc.length + 1 := by
+      unfold dedupStep; split <;> simp
+    simp only [List.length_cons]
+    omega
+
+theorem length_adj_le (es : List (UC × UC)) (n : UC) : (adj es n).length ≤ es.length := by
+  unfold adj
+  rw [dedupUC_eq]
+  have h1 := length_foldl_dedup ((es.filter (fun e => e.1.beq n)).map (·.2)) []
+  have h2 := List.length_filter_le (fun e : UC × UC => e.1.beq n) es
+  simp only [List.length_map, List.length_nil] at h1
+  omega
+
+theorem length_nexts_le (es : List (UC × UC)) (n : UC) (vis : List UC) :
+    (nexts es n vis).length ≤ es.length := by
+  unfold nexts
+  exact Nat.le_trans (List.length_filter_le _ _) (length_adj_le es n)
+
+/-- the entries pushed by one iteration weigh less than the popped one -/
+theorem pot_nexts_lt {es : List (UC × UC)} (hr : EdgeRefl es) (node : UC) (path vis : List UC) :
+    pot es (visit vis node) ((nexts es node vis).map (fun a => (a, path ++ [a]))) + 1 ≤
+      (es.length + 1) ^ unvis es (visit vis node) := by
+  have hlt : ∀ a ∈ nexts es node vis,
+      unvis es (visit (visit vis node) a) < unvis es (visit vis node) := by
+    intro a ha
+    obtain ⟨ha1, ha2⟩ := mem_nexts.mp ha
+    obtain ⟨e, he, _, rfl⟩ := mem_adj ha1
+    exact unvis_lt (fun x hx => InV_visit_mono hx) he ha2 (InV_visit_self (hr e he))
+  cases hu : unvis es (visit vis node) with
+  | zero =>
+    have hnil : nexts es node vis = [] := by
+      cases hn : nexts es node vis with
+      | nil => rfl
+      | cons a l =>
+        have := hlt a (by rw [hn]; simp)
+        omega
+    rw [hnil]
+    simp [pot]
+  | succ u =>
+    have h1 := pot_map_le (es := es) (vis := visit vis node) (path := path) (u := u)
+      (nexts es node vis) (fun a ha => by have := hlt a ha; omega)
+    have h2 := Nat.mul_le_mul_right ((es.length + 1) ^ u) (length_nexts_le es node vis)
+    have h3 : 1 ≤ (es.length + 1) ^ u := Nat.pow_pos (Nat.succ_pos _)
+    rw [Nat.pow_succ, Nat.mul_succ, Nat.mul_comm ((es.length + 1) ^ u) es.length]
+    omega
+
+/-- one iteration that does not return strictly decreases the potential -/
+theorem pot_step {es : List (UC × UC)} (hr : EdgeRefl es) (node : UC) (path : List UC)
+    (rest : List (UC × List UC)) (vis : List UC) :
+    pot es (visit vis node) (push rest path (nexts es node vis)) + 1 ≤
+      pot es vis ((node, path) :: rest) := by
+  unfold push
+  rw [pot_append]
+  have h1 := pot_mono (es := es) (v1 := vis) (v2 := visit vis node)
+    (fun x hx => InV_visit_mono hx) rest
+  have h2 := pot_nexts_lt hr node path vis
+  simp only [pot, wt]
+  omega
+
+/-- a fuel above the potential is never exhausted -/
+theorem bfsExhausts_false_of_pot {es : List (UC × UC)} (hr : EdgeRefl es) {t : UC} :
+    ∀ (fuel : Nat) (q : List (UC × List UC)) (vis : List UC), pot es vis q < fuel →
+      bfsExhausts es t fuel q vis = false := by
+  intro fuel
+  induction fuel with
+  | zero => intro q vis h; omega
+  | succ fuel ih =>
+    intro q vis h
+    match q, h with
+    | [], _ => unfold bfsExhausts; rfl
+    | (node, path) :: rest, h =>
+      unfold bfsExhausts
+      cases hf : (nexts es node vis).find? (·.beq t) with
+      | some a => rfl
+      | none =>
+        simp only []
+        apply ih
+        have := pot_step hr node path rest vis
+        omega
+
+/-- the fuel of the model is never exhausted: `findShortestPath` is the unbounded Python loop -/
+theorem bfs_fuel_suffices {es : List (UC × UC)} (hr : EdgeRefl es) {s t : UC}
+    (hs : s.beq s = true) : bfsExhausts es t (bfsFuel es) [(s, [s])] [] = false := by
+  have _ := hs
+  apply bfsExhausts_false_of_pot hr
+  have h : wt es [] s ≤ (es.length + 1) ^ es.length :=
+    Nat.pow_le_pow_right (Nat.succ_pos _) (unvis_le es _)
+  simp only [pot, bfsFuel]
+  omega
+
 /-- (2) if the search fails and the loop did not run out of fuel, no walk leads from `s` to a
     node `==` `t`. -/
 theorem bfs_none_unreachable {es : List (UC × UC)} (hr : EdgeRefl es) {s t : UC}
     (hs : s.beq s = true) (h : findShortestPath es s t = none)
-    (hfuel : bfsExhausts es t ((es.length + 2) * (es.length + 2) + 2) [(s, [s])] [] = false) :
+    (hfuel : bfsExhausts es t (bfsFuel es) [(s, [s])] [] = false) :
     ¬ ∃ p, isPath es p = true ∧ p.head? = some s ∧
       (∃ l, p.getLast? = some l ∧ l.beq t = true) := by
   rintro ⟨p, hp, hh, l, hl, hlt⟩
@@ -593,12 +811,22 @@ theorem bfs_none_unreachable {es : List (UC × UC)} (hr : EdgeRefl es) {s t : UC
     have := bfs_none_unreach hr ⟨1, _, _, rfl, inv_init hs hst'⟩ h hfuel _ _ hx
     rw [hlt] at this; cases this
 
-/-- the weak form: `none` means the start differs from the target and either the fuel or the
+/-- (2) unconditional completeness: if the search fails, no walk leads from `s` to a node
+    `==` `t` (the fuel hypothesis of `bfs_none_unreachable` is discharged by
+    `bfs_fuel_suffices`). -/
+theorem bfs_none_unreachable_full {es : List (UC × UC)} (hr : EdgeRefl es) {s t : UC}
+    (hs : s.beq s = true) (h : findShortestPath es s t = none) :
+    ¬ ∃ p, isPath es p = true ∧ p.head? = some s ∧
+      (∃ l, p.getLast? = some l ∧ l.beq t = true) :=
+  bfs_none_unreachable hr hs h (bfs_fuel_suffices hr hs)
+
+/-- the weak form (kept for reference; the first alternative never happens, see
+    `bfs_fuel_suffices`): `none` means the start differs from the target and either the fuel or the
     queue was exhausted (in the second case the target is unreachable). -/
 theorem bfs_none_cases {es : List (UC × UC)} (hr : EdgeRefl es) {s t : UC}
     (hs : s.beq s = true) (h : findShortestPath es s t = none) :
     s.beq t = false ∧
-    (bfsExhausts es t ((es.length + 2) * (es.length + 2) + 2) [(s, [s])] [] = true ∨
+    (bfsExhausts es t (bfsFuel es) [(s, [s])] [] = true ∨
       ¬ ∃ p, isPath es p = true ∧ p.head? = some s ∧
         (∃ l, p.getLast? = some l ∧ l.beq t = true)) := by
   constructor
@@ -606,7 +834,7 @@ theorem bfs_none_cases {es : List (UC × UC)} (hr : EdgeRefl es) {s t : UC}
     split at h
     · cases h
     · next hst => simpa using hst
-  · cases hx : bfsExhausts es t ((es.length + 2) * (es.length + 2) + 2) [(s, [s])] [] with
+  · cases hx : bfsExhausts es t (bfsFuel es) [(s, [s])] [] with
     | true => exact Or.inl rfl
     | false => exact Or.inr (bfs_none_unreachable hr hs h hx)
 
@@ -670,6 +898,8 @@ open Pint.Ctx
 #print axioms bfs_shortest
 #print axioms bfs_none_unreachable
 #print axioms bfs_none_cases
+#print axioms bfs_fuel_suffices
+#print axioms bfs_none_unreachable_full
 #print axioms bfs_fuel_mono
 #print axioms edgeRefl_of_nodup
 end
